@@ -67,6 +67,7 @@ def run(ctx):
     identical = 0
     canon_total = 0
     known_hits = []
+    oracle_only = []
     canon_rows = {}
     known = V.load_known("C09")
 
@@ -82,12 +83,19 @@ def run(ctx):
         return None
     for p in impl["cases"]:
         name = p["name"]
-        r = res[os.path.join(ctx.gen, name + ".v")]
-        tags = V.tagged(r["out"])
-        same = by_prog(tags, "SAME").get("P")
         tol = TOL.get(name, TOL_ITERATIVE if ("water_methanol" in name or "assoc" in name) else TOL_DEFAULT)
         f64_fail = [f for f in p["f64"]["failures"]
                     if not abs(f["a"] - f["b"]) <= max(F64_RTOL, 10 * tol) * max(abs(f["a"]), abs(f["b"]))]
+        if p.get("oracle_only"):
+            # quick tier, large programs: plain f64 comparison at the sampled states only (the thorough tier regenerates them)
+            oracle_only.append(name)
+            if f64_fail:
+                V.violation(ctx, "%s: the two implementations differ in plain f64 at %s" % (name, f64_fail[0].get("state_a")),
+                            {"broken": "oracle", "pair": name, "failing": f64_fail}, found_input=True)
+            continue
+        r = res[os.path.join(ctx.gen, name + ".v")]
+        tags = V.tagged(r["out"])
+        same = by_prog(tags, "SAME").get("P")
         if p["unsupported"][0] or p["unsupported"][1]:
             V.violation(ctx, "%s uses operations the lowering does not support" % name,
                         {"broken": "translator", "unsupported": p["unsupported"]}, found_input=False)
@@ -176,10 +184,11 @@ def run(ctx):
         "checker_cmd": "make -C coq (coqc 8.16.1) ; coqc coq/gen/C09/<pair>.v",
         "trusted_base": V.COMMON_TRUSTED + ["Interval bigint backend at precision %d" % impl["prec"],
                                              "the list of pairs and how each member is constructed (harness/src/bin/c09.rs)"],
-        "programs": 2 * len(impl["cases"]), "cases": len(impl["cases"]), "pairs_proved_identical": identical,
+        "programs": 2 * (len(impl["cases"]) - len(oracle_only)), "cases": len(impl["cases"]), "pairs_proved_identical": identical,
         "pairs_proved_equal_for_all_states_by_canonicaliser": canon_total,
         "canonicaliser_per_output": canon_rows, "pairs_matching_a_known_finding": known_hits,
-        "pairs_compared_by_enclosures_only_(labelled_test)": len(impl["cases"]) - identical - canon_total,
+        "pairs_compared_by_enclosures_only_(labelled_test)": len(impl["cases"]) - identical - canon_total - len(oracle_only),
+        "pairs_compared_in_plain_f64_only_(quick_tier,_large_programs)": oracle_only,
         "disagreements_checked": n_cmp,
         "worst_relative_difference_per_pair": worst,
         "library_theorems": lib["obligations"], "library_files": lib["library_files"], "axioms_reported": lib["axioms"],
